@@ -66,8 +66,62 @@ def histories_info(paths):
     return infos
 
 
+T1R = '"%s"' % T1
+T2R = '"%s"' % T2
+S1R = '"%s"' % S1
+S2R = '"%s"' % S2
+
+
+def turns_configs(quick):
+    a = {"ct": '[op |-> "CreateTopic", name |-> %s]' % T1R,
+         "cs": '[op |-> "CreateSub", name |-> %s, topic |-> %s]' % (S1R, T1R),
+         "ds": '[op |-> "DeleteSub", name |-> %s]' % S1R,
+         "pub": '[op |-> "Publish", topic |-> %s, n |-> 1]' % T1R,
+         "pl": '[op |-> "Pull", sub |-> %s, max |-> 1]' % S1R}
+    b = {"ct": '[op |-> "CreateTopic", name |-> %s]' % T1R,
+         "cs": '[op |-> "CreateSub", name |-> %s, topic |-> %s]' % (S1R, T1R),
+         "cs2": '[op |-> "CreateSub", name |-> %s, topic |-> %s]' % (S1R, T1R),
+         "ds": '[op |-> "DeleteSub", name |-> %s]' % S1R,
+         "ds2": '[op |-> "DeleteSub", name |-> %s]' % S1R,
+         "pub": '[op |-> "Publish", topic |-> %s, n |-> 2]' % T1R}
+    c = {"ct": '[op |-> "CreateTopic", name |-> %s]' % T1R,
+         "ct2": '[op |-> "CreateTopic", name |-> %s]' % T1R,
+         "dt": '[op |-> "DeleteTopic", name |-> %s]' % T1R,
+         "cs": '[op |-> "CreateSub", name |-> %s, topic |-> %s]' % (S1R, T1R),
+         "pub": '[op |-> "Publish", topic |-> %s, n |-> 1]' % T1R,
+         "pub2": '[op |-> "Publish", topic |-> %s, n |-> 1]' % T1R,
+         "pl": '[op |-> "Pull", sub |-> %s, max |-> 2]' % S1R}
+    cfgs = [("a", a), ("b", b), ("c", c)]
+    if not quick:
+        d = dict(b)
+        d["cs3"] = '[op |-> "CreateSub", name |-> %s, topic |-> %s]' % (S2R, T1R)
+        d["pl"] = '[op |-> "Pull", sub |-> %s, max |-> 1]' % S1R
+        d["ak"] = '[op |-> "Ack", sub |-> %s, acks |-> {1}]' % S1R
+        cfgs.append(("d", d))
+    return cfgs
+
+
+def turns_check(prop, work, quick, violations):
+    """All interleavings of concurrent clients at turn granularity (MCTurns): adds to the states of
+    the check, and the pinned design (attach of a subscription that is being deleted) must be rejected."""
+    total = {"generated": 0, "distinct": 0}
+    for name, ops in turns_configs(quick):
+        r = V.turns_mc(os.path.join(work, "mct"), name, ops)
+        if r["stats"]:
+            total["generated"] += r["stats"]["generated"]
+            total["distinct"] += r["stats"]["distinct"]
+        if r["error"]:
+            path = V.save_replay(prop, 0, {"kind": "model", "module": "MCTurns", "config": name, "error": r["error"],
+                                           "trace": r["trace"], "tlc_output_tail": r["out"][-4000:]})
+            violations.append(("model MCTurns %s: %s" % (name, r["error"]), path))
+    pinned = V.turns_mc(os.path.join(work, "mct"), "pinned", turns_configs(True)[0][1], switches={"AttachChecksDeleting": False})
+    if not pinned["error"]:
+        raise V.ToolError("vacuity: MCTurns without the attach check satisfies its invariants")
+    return total
+
+
 def core_check(prop, tier, seed, t0, mc_over, scen=None, explore=(), special=False, phases=(0, 37, 99, 50, 1),
-               caps=(16,), adv_extra=(0, 101), extra_scenarios=None, thorough=None, level_note=""):
+               caps=(16,), adv_extra=(0, 101), extra_scenarios=None, thorough=None, level_note="", turns=False):
     quick = tier == "quick"
     work = os.path.join(V.WORK, prop)
     shutil.rmtree(work, ignore_errors=True)
@@ -91,6 +145,9 @@ def core_check(prop, tier, seed, t0, mc_over, scen=None, explore=(), special=Fal
                                        "tlc_output_tail": mc["out"][-6000:]})
         violations.append(("model: " + mc["error"], path))
     edges = V.parse_edges(mc["out"])
+    if turns:
+        tt = turns_check(prop, work, quick, violations)
+        mc["stats"] = {"generated": mc["stats"]["generated"] + tt["generated"], "distinct": mc["stats"]["distinct"] + tt["distinct"]}
 
     # 2. Scenarios from the edges, executed on the real code.
     limit = (scen or {}).get("quick", 300) if quick else (scen or {}).get("thorough", 4000)
@@ -113,7 +170,7 @@ def core_check(prop, tier, seed, t0, mc_over, scen=None, explore=(), special=Fal
     # 3. Seeded concurrent histories.
     for (profile, nq, nt) in explore:
         n = nq if quick else nt
-        traces += V.dvh_explore(profile, seed * 100000, seed * 100000 + n, os.path.join(work, "explore-" + profile), chunks)
+        traces += V.dvh_explore(profile, seed * 100000, seed * 100000 + n, os.path.join(work, "explore-" + profile.replace(":", "_")), chunks)
 
     # 4. Validation by TLC.
     results = V.validate_traces(traces, work, parallel=8 if quick else 14)
@@ -273,7 +330,7 @@ def plan_c01(prop, tier, seed, t0):
             out.append(s)
         return out
     return core_check(prop, tier, seed, t0, over, explore=[("mixed", 48, 1500), ("data", 24, 1500)], caps=(16, 1, 2),
-                      extra_scenarios=extra, thorough={"mc": dict(MaxOps=7, MaxMsgs=3)})
+                      extra_scenarios=extra, thorough={"mc": dict(MaxOps=7, MaxMsgs=3)}, turns=True)
 
 
 def plan_c02(prop, tier, seed, t0):
@@ -370,8 +427,8 @@ def plan_c05(prop, tier, seed, t0):
 def plan_c08(prop, tier, seed, t0):
     over = dict(SubNames={S1, S2}, ModSecs={0}, AckRefs={1}, Advances={2}, PubSizes={1, 2}, PullMaxes={1, 2},
                 OpKinds={"CreateTopic", "CreateSub", "Publish", "Pull", "ModAck", "Advance"}, MaxOps=7, MaxMsgs=4)
-    return core_check(prop, tier, seed, t0, over, explore=[("data", 64, 3000), ("mixed", 16, 1000)], caps=(16, 1, 2),
-                      thorough={"mc": dict(MaxOps=8, MaxMsgs=5)})
+    return core_check(prop, tier, seed, t0, over, explore=[("data", 64, 3000), ("mixed", 16, 1000), ("mt:pubrace", 300, 20000)], caps=(16, 1, 2),
+                      thorough={"mc": dict(MaxOps=8, MaxMsgs=5)}, turns=True)
 
 
 def plan_c09(prop, tier, seed, t0):
@@ -392,8 +449,8 @@ def plan_c10(prop, tier, seed, t0):
                 PubSizes={1}, PullMaxes={1}, AckRefs={1}, ModSecs={0},
                 OpKinds={"CreateTopic", "DeleteTopic", "CreateSub", "DeleteSub", "GetTopic", "GetSub", "Publish", "Pull", "Ack", "ModAck"},
                 MaxOps=5, MaxMsgs=1)
-    return core_check(prop, tier, seed, t0, over, explore=[("churn", 64, 3000)],
-                      thorough={"mc": dict(MaxOps=6)})
+    return core_check(prop, tier, seed, t0, over, explore=[("churn", 64, 3000), ("mt:churnrace", 300, 20000), ("mt:cdrace", 300, 20000)],
+                      thorough={"mc": dict(MaxOps=6)}, turns=True)
 
 
 def plan_c11(prop, tier, seed, t0):
@@ -401,9 +458,9 @@ def plan_c11(prop, tier, seed, t0):
                 AckRefs={1}, ModSecs=set(),
                 OpKinds={"CreateTopic", "DeleteTopic", "CreateSub", "DeleteSub", "GetSub", "Publish", "Pull", "Walk"},
                 MaxOps=6, MaxMsgs=2)
-    return core_check(prop, tier, seed, t0, over, explore=[("churn", 64, 3000)],
+    return core_check(prop, tier, seed, t0, over, explore=[("churn", 64, 3000), ("mt:churnrace", 300, 20000), ("mt:cdrace", 300, 20000)],
                       extra_scenarios=lambda quick, sd: cancel_scenarios(sd, kinds={"DeleteSub", "DeleteTopic", "CreateSub"}, quick=quick),
-                      thorough={"mc": dict(MaxOps=7)})
+                      thorough={"mc": dict(MaxOps=7)}, turns=True)
 
 
 def plan_c13(prop, tier, seed, t0):
@@ -490,7 +547,7 @@ def scenario_check(prop, tier, seed, t0, scenarios, mc=None, explore=(), level_n
     traces = V.dvh_replay(scn_path, os.path.join(work, "replay"), chunks)
     for (profile, nq, nt) in explore:
         n = nq if quick else nt
-        traces += V.dvh_explore(profile, seed * 100000, seed * 100000 + n, os.path.join(work, "explore-" + profile), chunks)
+        traces += V.dvh_explore(profile, seed * 100000, seed * 100000 + n, os.path.join(work, "explore-" + profile.replace(":", "_")), chunks)
     results = V.validate_traces(traces, work, parallel=8 if quick else 14)
     return finish(prop, tier, seed, t0, work, mcres, scenarios, traces, results, violations, len(scenarios), build_s,
                   level_note, extra_cov=extra_cov)
